@@ -367,11 +367,25 @@ func (m *c35Model) handle(from []netip.Addr, msg *c35Msg) (out []c35Out, punches
 		if !ok {
 			return
 		}
+		// the same filter as for learned addresses (C36): an underlay address inside the node's own
+		// overlay networks is never punched (the fix recorded for C36 applies here)
+		usable := func(a netip.AddrPort) bool {
+			for _, n := range m.nets {
+				if n.Contains(a.Addr()) {
+					return false
+				}
+			}
+			return true
+		}
 		for _, a := range msg.v4 {
-			punches = append(punches, c35Punch{a, about})
+			if usable(a) {
+				punches = append(punches, c35Punch{a, about})
+			}
 		}
 		for _, a := range msg.v6 {
-			punches = append(punches, c35Punch{a, about})
+			if usable(a) {
+				punches = append(punches, c35Punch{a, about})
+			}
 		}
 		if m.respond {
 			punches = append(punches, c35Punch{netip.AddrPort{}, about})
